@@ -402,7 +402,7 @@ def run_corpus(case, rec=None):
 # ------------------------------------------------------------------ jobs
 
 def jobs(tier):
-    n = 2000 if tier == "thorough" else 150
+    n = 2000 if tier == "thorough" else 500
     js = [{"kind": "synthetic", "shard": i, "n": n} for i in range(16)]
     decks = corpus_decks()
     if tier != "thorough":
